@@ -5,6 +5,9 @@ From Coq Require Import ZArith ZifyN ZifyNat ZifyBool.
 Lemma iter_shift {A} (f : A -> A) n x : Nat.iter (S n) f x = Nat.iter n f (f x).
 Proof. induction n as [|n IH]; [reflexivity|]. cbn [Nat.iter nat_rect] in *. now rewrite IH. Qed.
 
+Lemma iter_plus {A} (f : A -> A) n m x : Nat.iter (n + m) f x = Nat.iter n f (Nat.iter m f x).
+Proof. induction n as [|n IH]; [reflexivity|]. change (S n + m) with (S (n + m)). cbn [Nat.iter nat_rect]. f_equal. exact IH. Qed.
+
 Lemma firstn_fill c buf : firstn (length c) (fill c buf) = c.
 Proof. unfold fill. rewrite firstn_app, Nat.sub_diag, firstn_all. cbn [firstn]. apply app_nil_r. Qed.
 
@@ -208,6 +211,54 @@ Theorem forward_completes bu bd up down sched :
 Proof.
   destruct (forward_completes_e false false bu bd up down sched) as [A B].
   split; intros H; [destruct (A H) as (X & Y & _)|destruct (B H) as (X & Y & _)]; auto.
+Qed.
+
+(* ---- the two directions END independently: after the download direction has ended (the peer half-closed first), at ANY
+   point of ANY schedule, the upload direction still delivers everything its source hands out — and vice versa ---- *)
+Lemma count_occ_app' (a b : list nat) x : count_occ Nat.eq_dec (a ++ b) x = count_occ Nat.eq_dec a x + count_occ Nat.eq_dec b x.
+Proof. induction a as [|y a IH]; [reflexivity|]. cbn [app count_occ]. destruct (Nat.eq_dec y x); lia. Qed.
+
+Theorem upload_survives_download_end eu ed bu bd up down sched1 sched2 :
+  phase_of 1 (frun false (finit_e eu ed bu bd up down) sched1) = PDone ->
+  2 * length up + 1 <= count_occ Nat.eq_dec sched1 0 + count_occ Nat.eq_dec sched2 0 ->
+  phase_of 0 (frun false (finit_e eu ed bu bd up down) (sched1 ++ sched2)) = PDone /\
+  sink_up (frun false (finit_e eu ed bu bd up down) (sched1 ++ sched2)) = concat up /\
+  sink_down (frun false (finit_e eu ed bu bd up down) (sched1 ++ sched2)) = concat down.
+Proof.
+  intros Hd Hc.
+  destruct (forward_completes_e eu ed bu bd up down (sched1 ++ sched2)) as [A _].
+  destruct A as (A1 & A2 & _); [rewrite count_occ_app'; exact Hc|]. split; [exact A1|]. split; [exact A2|].
+  (* the download direction had ended after sched1 and stays ended with the same sink *)
+  pose proof (run_view sched1 _ _ _ (view_init eu ed bu bd up down)) as V1.
+  pose proof (run_view (sched1 ++ sched2) _ _ _ (view_init eu ed bu bd up down)) as V2.
+  destruct (view_fields _ _ _ V1) as (_ & S1 & _ & P1 & _). destruct (view_fields _ _ _ V2) as (_ & S2 & _ & _). cbn [fst snd] in *.
+  destruct (forward_conserves_e eu ed bu bd up down sched1) as (_ & _ & _ & D & _). specialize (D Hd).
+  rewrite S2, count_occ_app'. rewrite Nat.add_comm. rewrite iter_plus.
+  rewrite P1 in Hd. rewrite S1 in D.
+  destruct (Nat.iter (count_occ Nat.eq_dec sched1 1) solo (PRead, dinit bd down ed)) as [ph ds] eqn:E. cbn [fst snd] in *. subst ph.
+  rewrite iter_done. exact D.
+Qed.
+
+Theorem download_survives_upload_end eu ed bu bd up down sched1 sched2 :
+  phase_of 0 (frun false (finit_e eu ed bu bd up down) sched1) = PDone ->
+  2 * length down + 1 <= count_occ Nat.eq_dec sched1 1 + count_occ Nat.eq_dec sched2 1 ->
+  phase_of 1 (frun false (finit_e eu ed bu bd up down) (sched1 ++ sched2)) = PDone /\
+  sink_down (frun false (finit_e eu ed bu bd up down) (sched1 ++ sched2)) = concat down.
+Proof.
+  intros _ Hc. destruct (forward_completes_e eu ed bu bd up down (sched1 ++ sched2)) as [_ B].
+  destruct B as (B1 & B2 & _); [rewrite count_occ_app'; exact Hc|]. auto.
+Qed.
+
+(* closing the local connection when the download direction ends (the fallback for a LocalConn without CloseWrite) breaks it:
+   download Read, Write, EOF-Read; then the upload loop gets all the steps it wants and delivers nothing *)
+Lemma close_on_download_end_refuted :
+  exists up down sched1 sched2,
+    phase_of 1 (frun_close (finit [] [] up down) sched1) = PDone /\
+    2 * length up + 1 <= count_occ Nat.eq_dec sched2 0 /\
+    sink_up (frun_close (finit [] [] up down) (sched1 ++ sched2)) <> concat up.
+Proof.
+  exists [[1;2;3]%N; [4]%N], [[9]%N], [1;1;1], [0;0;0;0;0].
+  split; [vm_compute; reflexivity|]. split; [vm_compute; lia|]. vm_compute. discriminate.
 Qed.
 
 (* ---- the source as a byte string behind the chunk oracle of Base/Chunks.v ---- *)
